@@ -17,6 +17,7 @@ HM = 'crysp/hmac.py'
 
 
 def run(ctx):
+    integrity(ctx, ['crysp/hmac.py', 'crysp/md.py', 'crysp/padding.py', 'crysp/sha.py'])
     ctx.rule('C13-R2 algorithm terms')
     cmp_many(ctx, HM, [('HMAC.__init__', S.HMAC_INIT), ('HMAC.setkey', S.HMAC_SETKEY), ('HMAC.__call__', S.HMAC_CALL)])
 
